@@ -4,7 +4,11 @@
 From Coq Require Import List NArith Bool.
 From Verif Require Import Crash.Model Crash.ProofsStore Crash.ProofsInv Crash.ProofsImport Crash.ProofsCrash Crash.Examples
   Crash.ProofsEqv Crash.ProofsShape Crash.ProofsResumeAll Crash.ProofsOrphans Crash.ProofsResume
-  Crash.ProofsFinalized Crash.ProofsQuality Crash.ProofsCatchUp Crash.ExamplesCatchUp.
+  Crash.ProofsFinalized Crash.ProofsQuality Crash.ProofsCatchUp Crash.ExamplesCatchUp Crash.ProofsDual.
+(* the log-database part is stated over wp-chain's repository model and wp-chain's log-db model: qualified names, no Import
+   (Chain.Model and Crash.Model both define blk, summary, stored, ...) *)
+From Verif Require Chain.Model Chain.Proofs Chain.ProofsWalk Chain.Examples LogDB.Model LogDB.ProofsCanon LogDB.ProofsSync
+  Crash.LogCrash Crash.ExamplesLog.
 Import ListNotations.
 Open Scope N_scope.
 
@@ -196,6 +200,81 @@ Example catch_up_premise_needed :
   option_map (fun r => stored r (bid 2 9)) (resume ex_cfg true (crash ex_cfg ex_s0 ex_hist_fork 19) (skipn 4 ex_hist_fork)) = Some true.
 Proof. exact (conj ex_fork_wf_hist ex_fork_diverges). Qed.
 
+(* ---- the log database (the node's second store; anchors cmd/thor/sync_logdb.go, logdb/logdb.go).
+   Key-value level: the combined sequence of atomic commits of one import is the main database's batches with the log
+   database's single transaction inserted after the state commit, for a block that becomes best only. *)
+Theorem main_db_sees_the_same_writes c s b : mains (dual_steps c s b) = import_batches c s b.
+Proof. exact (dual_mains c s b). Qed.
+
+(* at EVERY cut of the combined sequence: a block that is visible in the main database and became best has its log commit
+   behind it; the log commit never precedes the end of the block's state commit; a side block has no log commit *)
+Theorem visible_best_block_is_logged c s b j :
+  becomes_best c s b = true ->
+  stored (apply_writes s (mains (firstn j (dual_steps c s b)))) (b_id b) = true -> In WLog (firstn j (dual_steps c s b)).
+Proof. exact (ProofsDual.visible_best_block_is_logged c s b j). Qed.
+Theorem log_commit_follows_state_commit c s b j :
+  becomes_best c s b = true -> In WLog (firstn j (dual_steps c s b)) ->
+  exists rest, mains (firstn j (dual_steps c s b)) = state_batches b (conf_of s b) ++ rest.
+Proof. exact (ProofsDual.log_commit_follows_state_commit c s b j). Qed.
+Theorem side_block_has_no_log_commit c s b : becomes_best c s b = false -> ~ In WLog (dual_steps c s b).
+Proof. exact (ProofsDual.side_block_has_no_log_commit c s b). Qed.
+
+(* Block level (Crash/LogCrash.v: node = wp-chain's repository + wp-chain's log tables; an import = [log transaction;]
+   AddBlock; lcut = a crash after j of these updates; lrestart = syncLogDB at start, LogDB/Model.v sync_logdb).
+   For EVERY import history (LogDB.ProofsCanon.imported: any valid AddBlock calls, best blocks through writeLogs), EVERY
+   next block and EVERY cut: if the start-up re-sync returns, the node is in a state of the uninterrupted run — the one
+   before the import or the one after it — and its log tables are exactly the logs of the canonical chain of the
+   repository found on disk (no row missing, none duplicated, none of an abandoned branch).  Uses
+   sync_reestablishes_canonical (LogDB/ProofsSync.v, wp-chain) for a block stored beside the best chain, and the fact that
+   syncLogDB reads the best block's chain only. *)
+Theorem log_crash_then_resync g gp tag r db b conf best j n' n'' :
+  Chain.Model.num_of g = 0 ->
+  LogDB.ProofsCanon.imported g gp tag r db -> Chain.Proofs.valid_add r b conf ->
+  LogCrash.lcut (LogCrash.mkNode r db) b conf best j = Some n' -> LogCrash.lrestart n' = Some n'' ->
+  LogDB.ProofsCanon.imported g gp tag (LogCrash.n_repo n'') (LogCrash.n_log n'') /\ LogCrash.log_canonical n'' /\
+  (n'' = LogCrash.mkNode r db \/
+   exists l, LogCrash.import_lsteps (LogCrash.mkNode r db) b conf best = Some l /\
+             n'' = fold_left LogCrash.do_lstep l (LogCrash.mkNode r db)).
+Proof. exact (fun Hg => LogCrash.log_crash_resync g gp tag Hg r db b conf best j n' n''). Qed.
+
+(* the cut the re-sync exists for: log transaction committed, AddBlock not done — the tables come back to the ones before *)
+Theorem resync_after_log_commit g gp tag r db b conf db' d :
+  Chain.Model.num_of g = 0 ->
+  LogDB.ProofsCanon.imported g gp tag r db -> Chain.Proofs.valid_add r b conf ->
+  LogDB.Model.write_logs r db b (Chain.Model.r_best r) = Some db' ->
+  (exists r', Chain.Model.add_block r b conf true = Some r') ->
+  LogDB.Model.sync_logdb r db' = Some d -> d = db.
+Proof. exact (fun Hg => LogCrash.sync_after_log_commit g gp tag Hg r db b conf db' d). Qed.
+
+(* non-vacuity (wp-chain's example history): the import of block (3,1) reorganises from (2,1) to its sibling (2,2); after
+   the log commit the tables hold the sibling branch's rows while the repository's best block still is (2,1); the re-sync
+   restores the tables of (2,1); after AddBlock the re-sync changes nothing *)
+Example log_crash_example :
+  LogDB.ProofsCanon.imported Chain.Examples.ex_g Chain.Examples.ex_gp Chain.Examples.ex_tag Chain.Examples.ex_r3 ExamplesLog.lx_db2 /\
+  Chain.Proofs.valid_add Chain.Examples.ex_r3 Chain.Examples.ex_b3' 0 /\
+  LogCrash.lcut (LogCrash.mkNode Chain.Examples.ex_r3 ExamplesLog.lx_db2) Chain.Examples.ex_b3' 0 true 1
+    = Some (LogCrash.mkNode Chain.Examples.ex_r3 ExamplesLog.lx_db4) /\
+  map LogDB.Model.er_block (LogDB.Model.db_events ExamplesLog.lx_db2) = [Chain.Examples.bid 2 1] /\
+  map LogDB.Model.er_block (LogDB.Model.db_events ExamplesLog.lx_db4) = [Chain.Examples.bid 2 2; Chain.Examples.bid 2 2] /\
+  Chain.Model.r_best Chain.Examples.ex_r3 = Chain.Examples.bid 2 1 /\
+  LogCrash.lrestart (LogCrash.mkNode Chain.Examples.ex_r3 ExamplesLog.lx_db4)
+    = Some (LogCrash.mkNode Chain.Examples.ex_r3 ExamplesLog.lx_db2) /\
+  LogCrash.lcut (LogCrash.mkNode Chain.Examples.ex_r3 ExamplesLog.lx_db2) Chain.Examples.ex_b3' 0 true 2
+    = Some (LogCrash.mkNode Chain.Examples.ex_r4 ExamplesLog.lx_db4) /\
+  LogCrash.lrestart (LogCrash.mkNode Chain.Examples.ex_r4 ExamplesLog.lx_db4)
+    = Some (LogCrash.mkNode Chain.Examples.ex_r4 ExamplesLog.lx_db4).
+Proof. exact (conj ExamplesLog.lx_imported (conj ExamplesLog.lx_valid ExamplesLog.lx_cut)). Qed.
+
+(* non-vacuity of the key-value statements: block 3 of the example history becomes best; the log commit is the second of
+   its six combined steps (account batch, LOG, index batch, block bulk, quality, finalized) *)
+Example dual_example :
+  let s := run ex_cfg ex_s0 (firstn 2 ex_hist) in
+  becomes_best ex_cfg s (ex_blk 3 []) = true /\
+  map (fun x => match x with WLog => true | WMain _ => false end) (dual_steps ex_cfg s (ex_blk 3 [])) = [false; true; false; false; false; false] /\
+  stored (apply_writes s (mains (firstn 4 (dual_steps ex_cfg s (ex_blk 3 []))))) (bid 3 3) = true /\
+  stored (apply_writes s (mains (firstn 3 (dual_steps ex_cfg s (ex_blk 3 []))))) (bid 3 3) = false.
+Proof. exact ex_dual. Qed.
+
 (* ---- value consistency and orphans_harmless.
    [key_ver k] is the (number, conflicts) version a key is stamped with (trie nodes, transactions, receipts, tx-index entries).
    Inv3 = FreshInv (a stored block's conflicts number is below ScanConflicts of its height) + VerInv (every node a stored root
@@ -284,6 +363,14 @@ Print Assumptions run_keeps_invq.
 Print Assumptions genesis_store_invq.
 Print Assumptions catch_up_hypotheses_met.
 Print Assumptions catch_up_premise_needed.
+Print Assumptions main_db_sees_the_same_writes.
+Print Assumptions visible_best_block_is_logged.
+Print Assumptions log_commit_follows_state_commit.
+Print Assumptions side_block_has_no_log_commit.
+Print Assumptions log_crash_then_resync.
+Print Assumptions resync_after_log_commit.
+Print Assumptions log_crash_example.
+Print Assumptions dual_example.
 Print Assumptions every_cut_satisfies_inv3.
 Print Assumptions import_never_rewrites_stored_version.
 Print Assumptions run_keeps_stored_data.
